@@ -30,5 +30,7 @@ pub mod c09;
 pub mod c10;
 #[cfg(all(kani, feature = "c12"))]
 pub mod c12;
+#[cfg(all(kani, feature = "c19"))]
+pub mod c19;
 #[cfg(all(kani, feature = "c13"))]
 pub mod c13;
